@@ -16,6 +16,58 @@ def variant_of_pat(p):
     return None
 
 
+def next_rule(rule, crate):
+    from .. import prims
+
+    class NextPaths(prims.Paths):
+        def write_of(self, n):
+            w = super().write_of(n)
+            if w:
+                return w
+            if n["k"] in ("call", "mcall") and n.get("callee") and strip_generics(n["callee"]["path"]).endswith("Iterator::next"):
+                src = n["recv"] if n["k"] == "mcall" else (n["args"][0] if n.get("args") else None)
+                for _ in range(4):
+                    if src is not None and prims._peel(src)["k"] == "local" and prims._peel(src)["var"] in self.lets:
+                        src = self.lets[prims._peel(src)["var"]]
+                if src is not None and any(m.get("callee") and strip_generics(m["callee"]["path"]).endswith("::chars") for m in walk(src)):
+                    return ("read", n)
+            return None
+
+    advancers = {prims.INPUT + "::" + m for m in prims.CONSUMERS} | {"pest_typed::position::Position::skip"}
+    for label, fid, m in prims.consumers(crate):
+        if m != "next":
+            continue
+        b = crate.body(fid)
+        if b is None:
+            rule.violate(label, "Input::next missing (anchor lost)")
+            continue
+        loc = crate.loc(b["value"].get("sp"))
+        try:
+            res = NextPaths(crate, b, advancers).results()
+        except RuntimeError as ex:
+            rule.violate(label, "cannot enumerate paths: %s" % ex, loc)
+            continue
+        bad = None
+        n_succ = 0
+        for v, w in res:
+            if v in ("None", False):
+                continue
+            n_succ += 1
+            kinds = [x[0] for x in w]
+            reads = [i for i, k in enumerate(kinds) if k == "read"]
+            writes = [i for i, k in enumerate(kinds) if k != "read" and not k.startswith("temp")]
+            if len(reads) != 1:
+                bad = "a success path reads the next character %d times" % len(reads)
+            elif writes and writes[0] < reads[0]:
+                bad = "a success path moves the cursor (%s) before it reads the character it returns: the character after the consumed one is handed out" % kinds[writes[0]]
+        if not n_succ:
+            bad = "no success path found"
+        if bad:
+            rule.violate(label, bad, loc)
+        else:
+            rule.inst(label, loc, "ok", {"success_paths": n_succ})
+
+
 def run(ctx):
     fs = facts.load("core", "fx_macros", "fx_mc")
     world = nodes.World(fs, ["pest_typed", "fx_macros", "fx_mc"])
@@ -277,6 +329,11 @@ def run(ctx):
             else:
                 rl.violate(bid, "iterator is %s, expected %s over content in order (mapped to .matched)" % (d, want), c.loc(c.body(bid)["value"].get("sp")))
     rl.require(15, "leaf / iterator functions")
+    # the character a leaf stores is handed out by Input::next: it must be the one the cursor moved over
+    rnx = ctx.rule("R17-NEXT", "every implementation of Input::next returns, on its success paths, the character it read *before* it moved the "
+                               "cursor (one read of chars().next(), no cursor write before it), so ANY's content is the consumed character")
+    next_rule(rnx, fs["pest_typed"])
+    rnx.require(2, "implementations of next")
     from . import store
     rst = ctx.rule("R17-STORE", "container nodes return, on every path, a node that contains the node of each child that matched on that path "
                                 "(the accessors can only reflect what was stored)")
